@@ -116,6 +116,13 @@ func (en *Engine) RunUnit(key string) (res *UnitResult) {
 	}
 	e := en.newExec(fn, fc)
 	e.Run()
+	// an atcall clause whose callee is never called on any path would be vacuous: the callee name is wrong or the
+	// code no longer makes the call
+	for callee := range fc.AtCall {
+		if !e.atCallSeen[callee] {
+			e.undecided = append(e.undecided, "atcall "+callee+": no call to this function on any path of "+shortName(key)+" (clause not applied)")
+		}
+	}
 	en.finish(e, fc, res)
 	return
 }
